@@ -154,6 +154,13 @@ def r2(ctx, R):
         c = q.calls(fi, name="clear_subs_rootitems", recv="self")
         if not c or not fi.cfg.must_pass(q.nodes_for(fi, c), fi.cfg.exit, labels=("N", "T", "F")):
             R.bad(fi, fi.node, "instances built from the space survive", stmt="clear_subs_rootitems")
+    rl_ = ctx.func("UserCellsImpl.reload")
+    R.inst("UserCellsImpl.reload: a changed source discards the ItemSpaces of the space before the cells is cleared")
+    cr_ = [c for c in q.calls(rl_, name="clear_subs_rootitems") if q.anorm(rl_, c.func.value) == "self.parent"]
+    co_ = q.calls(rl_, name="clear_obj")
+    if not cr_ or not co_ or set(q.guards_of(rl_, cr_[0])) != set(q.guards_of(rl_, co_[0])):
+        R.bad(rl_, rl_.node, "after a reload the existing ItemSpaces keep the old compiled function and their values",
+              stmt="reload clears ItemSpaces")
     cs = ctx.func("DynamicBase.clear_subs_rootitems")
     R.inst("clear_subs_rootitems clears each root through root.parent.clear_itemspace_at(root.argvalues_if)")
     c = q.calls(cs, name="clear_itemspace_at")
@@ -255,6 +262,18 @@ def r3(ctx, R):
     c = q.calls(ba, name="bind")
     if not c or norm(c[0].func.value) != "self.parent.formula.signature":
         R.bad(ba, ba.node, "arguments are not bound by the parent's parameter signature", stmt="bind")
+    ci_ = ctx.func("CellsImpl.__init__")
+    R.inst("a cells built from a base takes its allow_none setting (as it takes is_cached)")
+    ws_ = [st for st, t in q.attr_writes(ci_, attr="allow_none", recv="self") if norm(st.value) == "base.allow_none"]
+    if not ws_ or ("base", "T") not in q.guards_of(ci_, ws_[0]):
+        R.bad(ci_, ci_.node, "allow_none of a base cells is not carried into its instances: S.foo() returns None, S[1].foo() raises",
+              stmt="allow_none = base.allow_none")
+    di_ = ctx.func("DynamicSpaceImpl.__init__")
+    R.inst("a dynamic space takes the allow_none setting of its base")
+    ws_ = [st for st, t in q.attr_writes(di_, attr="allow_none", recv="self") if norm(st.value) == "base.allow_none"]
+    bi_ = [c for c in q.calls(di_, name="__init__") if call_recv(c) == "BaseSpaceImpl"]
+    if not ws_ or q.guards_of(di_, ws_[0]) or (bi_ and q.path_between(di_, ws_[0], bi_[0])):
+        R.bad(di_, di_.node, "allow_none of a child space of the base is not seen in the instance", stmt="space allow_none = base.allow_none")
     ir = ctx.func("ItemSpaceImpl._init_refs")
     R.inst("ItemSpaceImpl._init_refs: arguments become references (RefDict('arguments', data=arguments))")
     c = q.calls(ir, name="RefDict")
